@@ -7,4 +7,6 @@ ASSUMPTIONS = _bc.ASSUMPTIONS
 
 
 def run(ck):
-    _bc.run_bc(ck, "c07", set("c20_responses c07_pubrec_after_store c07_no_publish_after_release c07_single_ack c07_pubrel_answered c20_tokens".split()))
+    _bc.run_bc(ck, "c07", set("c20_responses c07_pubrec_after_store c07_no_publish_after_release c07_single_ack c07_pubrel_answered c20_tokens "
+                           # added by the audit (audit/C07.md): release only inside the acknowledgement, nothing dropped, the message handed on is the stored one, one hand-over per packet
+                           "c07_release_in_ack c20_acted_on c15_release_intact c15_in_order".split()))
